@@ -369,7 +369,7 @@ def _fails_in_fresh_child(part, case, kind, allowance=120):
     return ok
 
 
-def _minimise_trace(ctx, part, case, v, budget=40):
+def _minimise_trace(ctx, part, case, v, budget=12):
     """greedy step removal; a candidate is kept only if it still fails in a fresh child"""
     if part.replay is None or not isinstance(case, dict) or 'trace' not in case:
         return case
